@@ -20,8 +20,8 @@ RULE = ('cases = (retained set S, removed-table variant, position list I) enumer
 ASSUMPTIONS = ['mapping is only specified for ascending position lists (repeats allowed)',
                'point coordinates are irrelevant to mapping/compute_removed_points (only lengths are used)']
 BOUNDS = {
-    'quick': {'n_max_sets': 10, 'perm_rows_max': 5, 'multiset_len': 3, 'simplifier_profile': 'A n<=4, A1 n=5'},
-    'thorough': {'n_max_sets': 13, 'perm_rows_max': 6, 'multiset_len': 4, 'simplifier_profile': 'A n<=5'},
+    'quick': {'n_max_sets': 10, 'perm_rows_max': 5, 'multiset_len': 3, 'simplifier_profile': 'A n<=4, A1 n=5', 'operation_sequences': 'depth 2: every consecutive pair of simplifier calls of a unit, the earlier (reduced, removed) held and re-checked after the later call'},
+    'thorough': {'n_max_sets': 13, 'perm_rows_max': 6, 'multiset_len': 4, 'simplifier_profile': 'A n<=5', 'operation_sequences': 'depth 2, as quick'},
 }
 
 
@@ -293,5 +293,5 @@ def replay(case):
 TECHNIQUE = 'bounded-exhaustive enumeration of all index structures (retained sets x position lists x row permutations) on the real code against the definition reduced[I]'
 LEVEL_TEXT = ('Model checking by complete enumeration: every retained set with both ends for n <= 10 (13 thorough), every strictly '
               'ascending and short non-decreasing position list, every row order of the removed table (sorted=False), int and float tables, '
-              'plus the tables produced by all five simplifiers on all small curves; mapping is pure index arithmetic so the small-scope space is the whole behaviour.')
+              'plus the tables produced by all five simplifiers on all small curves, each held across the next simplifier call and re-checked (depth-2 call histories); mapping is pure index arithmetic so the small-scope space is the whole behaviour.')
 LEVEL_NOTE = 'Bounded by n (10/13) and by table rows for permutations (5/6); larger index structures are not explored. numpy is trusted.'
